@@ -1,4 +1,5 @@
 import MithrilModel.LegacyDec
+import MithrilModel.LegacyEnc
 /-!
 # C05 — Decoding untrusted bytes never crashes the process and round-trips honest values
 
@@ -52,5 +53,92 @@ def isOk {α} : Outcome α → Bool
 example : isOk (singleSig { sigValid := fun _ => true, vkValid := fun _ => true }
     ([0,0,0,0,0,0,0,1, 0,0,0,0,0,0,0,7] ++ List.replicate 48 9 ++ [0,0,0,0,0,0,0,3])) = true := by
   decide +kernel
+
+/-! ## C05_legacy_roundtrip — decoding the legacy encoding of an honest value returns that value
+
+Encoders: `LegacyEnc` (the transliteration of the hand assembly `legacy_single` … `legacy_aggregate` of the
+harness, i.e. of the byte strings the real decoders are fed with). `WF.x O v` (decidable): sigma 48 bytes and
+accepted by the point oracle, key 96 bytes and accepted, every Merkle value 32 bytes, every number < 2^64.
+The three decoders that are entered directly round-trip under `WF` and the 2^63 length bound alone. The three
+envelopes dispatch their nested payloads on the first byte (`1` = CBOR), so they additionally need
+`Routed.x v` (decidable): no nested legacy payload starts with byte `1`, i.e. every count < 2^56 and no key
+starting with byte `1` — hence `_partial`. `Routed` is no restriction for the real code: a count ≥ 2^56 needs
+≥ 2^59 bytes, and blst accepts a 96-byte key only with bit 7 of its first byte set (`CompressedKeys`). -/
+section roundtrip
+open LegacyEnc
+
+theorem C05_legacy_roundtrip_single_signature (O : Oracle) (s : SingleSig) (hwf : WF.single O s)
+    (hlen : (encSingle s).length < 2 ^ 63) : singleSig O (encSingle s) = .ok s := singleSig_enc O s hwf hlen
+
+theorem C05_legacy_roundtrip_registration_entry (O : Oracle) (r : RegEntry) (hwf : WF.reg O r) :
+    regEntry O (encReg r) = .ok r := regEntry_enc O r hwf
+
+theorem C05_legacy_roundtrip_batch_path (p : BatchPath) (hwf : WF.path p) (hlen : (encPath p).length < 2 ^ 63) :
+    batchPath (encPath p) = .ok p := batchPath_enc p hwf hlen
+
+theorem C05_legacy_roundtrip_signature_with_party_partial (O : Oracle) (sr : SingleSig × RegEntry)
+    (hwf : WF.sigReg O sr) (hrt : Routed.sigReg sr) (hlen : (encSigReg sr).length < 2 ^ 63) :
+    sigReg O (encSigReg sr) = .ok (.val sr) := sigReg_enc O sr.1 sr.2 hwf.1 hwf.2 hrt hlen
+
+theorem C05_legacy_roundtrip_concatenation_proof_partial (O : Oracle) (p : Proof) (hwf : WF.proof O p)
+    (hrt : Routed.proof p) (hlen : (encProof p).length < 2 ^ 63) :
+    proof O (encProof p) = .ok (.val p) ∧ proofVersioned O (encProof p) = .ok (.val p) :=
+  ⟨proof_enc O p hwf hrt hlen, proofVersioned_enc O p hwf hrt hlen⟩
+
+theorem C05_legacy_roundtrip_aggregate_signature_partial (O : Oracle) (p : Proof) (hwf : WF.proof O p)
+    (hrt : Routed.proof p) (hlen : (encAggregate p).length < 2 ^ 63) :
+    aggregate O (encAggregate p) = .ok (.val p) := aggregate_enc O p hwf hrt hlen
+
+/-- the same with the routing condition on keys discharged by what the real point validation guarantees -/
+theorem C05_legacy_roundtrip_aggregate_signature_compressed_partial (O : Oracle) (hO : CompressedKeys O) (p : Proof)
+    (hwf : WF.proof O p) (hidx : ∀ sr ∈ p.sigs, sr.1.indexes.length < 2 ^ 56) (hval : p.path.values.length < 2 ^ 56)
+    (hlen : (encAggregate p).length < 2 ^ 63) : aggregate O (encAggregate p) = .ok (.val p) :=
+  aggregate_enc O p hwf (Routed.proof_of_compressed O hO p hwf hidx hval) hlen
+
+/-- why `Routed` cannot be dropped in the model: the nested registration entry of an honest legacy layout whose
+key starts with byte `1` goes to the CBOR branch (an oracle accepting such a key is not the real one) … -/
+theorem C05_legacy_roundtrip_misrouted_key (O : Oracle) (r : RegEntry) (hlen : r.vk.length = 96)
+    (h1 : r.vk.head? = some 1) : nestedReg O (encReg r) = .ok .cbor := nestedReg_enc_misrouted O r hlen h1
+
+/-- … and so does a nested single signature with 2^56 ≤ count < 2^57 indexes (more than 2^59 bytes) -/
+theorem C05_legacy_roundtrip_misrouted_count (O : Oracle) (s : SingleSig) (h1 : 2 ^ 56 ≤ s.indexes.length)
+    (h2 : s.indexes.length < 2 ^ 57) : nestedSingle O (encSingle s) = .ok .cbor :=
+  nestedSingle_enc_misrouted O s h1 h2
+
+/-! non-vacuity: a concrete oracle and small honest values satisfy every hypothesis, and the decoders evaluate to
+the values (checked by the kernel independently of the theorems) -/
+def exO : Oracle := { sigValid := fun b => b.head? == some 0x91, vkValid := fun b => b.head? == some 0xa3 }
+def exS : SingleSig := { indexes := [3, 70000, 2 ^ 64 - 1], sigma := 0x91 :: List.replicate 47 5, signerIndex := 2 ^ 40 + 7 }
+def exS0 : SingleSig := { indexes := [], sigma := 0x91 :: List.replicate 47 6, signerIndex := 0 }
+def exR : RegEntry := { vk := 0xa3 :: List.replicate 95 9, stake := 2 ^ 64 - 1 }
+def exPath : BatchPath := { values := [List.replicate 32 1, List.replicate 32 255], indices := [0, 5, 2 ^ 33] }
+def exP : Proof := { sigs := [(exS, exR), (exS0, exR)], path := exPath }
+
+example : WF.single exO exS ∧ (encSingle exS).length < 2 ^ 63 := by decide +kernel
+example : singleSig exO (encSingle exS) = .ok exS :=
+  C05_legacy_roundtrip_single_signature _ _ (by decide +kernel) (by decide +kernel)
+example : singleSig exO (encSingle exS) = .ok exS := by decide +kernel
+example : WF.reg exO exR := by decide +kernel
+example : regEntry exO (encReg exR) = .ok exR := by decide +kernel
+example : WF.path exPath ∧ (encPath exPath).length < 2 ^ 63 := by decide +kernel
+example : batchPath (encPath exPath) = .ok exPath := by decide +kernel
+example : WF.sigReg exO (exS, exR) ∧ Routed.sigReg (exS, exR) ∧ (encSigReg (exS, exR)).length < 2 ^ 63 := by decide +kernel
+example : sigReg exO (encSigReg (exS, exR)) = .ok (.val (exS, exR)) := by decide +kernel
+example : WF.proof exO exP ∧ Routed.proof exP ∧ (encAggregate exP).length < 2 ^ 63 := by decide +kernel
+example : proof exO (encProof exP) = .ok (.val exP) := by decide +kernel
+example : aggregate exO (encAggregate exP) = .ok (.val exP) :=
+  C05_legacy_roundtrip_aggregate_signature_partial _ _ (by decide +kernel) (by decide +kernel) (by decide +kernel)
+example : aggregate exO (encAggregate exP) = .ok (.val exP) := by decide +kernel
+/-- `CompressedKeys` is satisfiable: `exO` only accepts keys starting with `0xa3` -/
+example : CompressedKeys exO := by
+  intro b x h hx
+  simp only [exO, hx] at h
+  have : x = 0xa3 := by simpa using h
+  subst this; decide
+/-- the mis-routed key, concretely -/
+example : nestedReg { sigValid := fun _ => true, vkValid := fun _ => true } (encReg { vk := 1 :: List.replicate 95 0, stake := 1 })
+    = .ok .cbor := by decide +kernel
+
+end roundtrip
 
 end C05
